@@ -76,7 +76,7 @@ func registerEditionsStringExt() {
 		}
 		fdp := &descriptorpb.FileDescriptorProto{
 			Name:       proto.String(fmt.Sprintf("verif/editions_string_ext_%d.proto", i)),
-			Package:    proto.String(fmt.Sprintf("verif.edstrext%d", i)),
+			Package:    proto.String(prefix + "goproto.proto.testeditions"), // the extendee's package: cross-flavour JSON/text renaming goes by package
 			Syntax:     proto.String("editions"),
 			Edition:    descriptorpb.Edition_EDITION_2023.Enum(),
 			Dependency: []string{d.ParentFile().Path()},
